@@ -25,9 +25,12 @@ def run(F, chk):
                           "adjusted against the deleted index (references are shifted by the header, integers are not)")
 
     # ---------------------------------------------------------------- R6.1
-    for fn in sorted(F.fns.values(), key=lambda f: f["id"]):
-        if fn.get("cls") != HDR or fn.get("tmpl") == "pattern" or fn.get("ctor"):
-            continue
+    hdr_fns = [F.inl(f) for f in sorted(F.fns.values(), key=lambda f: f["id"])
+               if f.get("cls") == HDR and f.get("tmpl") != "pattern" and not f.get("ctor") and f.get("body")]
+    expanded_helpers = {h for f in hdr_fns for h in f.get("inlined_from", [])}
+    for fn in hdr_fns:
+        if fn["id"] in expanded_helpers:
+            continue  # a private helper is judged as part of the functions it was expanded into
         lo = pairing.length_ops(fn, HDR, set(BLOCK_TABLES))
         co = pairing.counter_ops(fn, HDR, {"numBlocks"})
         if lo or co:
@@ -92,7 +95,20 @@ def run(F, chk):
     # NifFile side: the owning vector
     for qn in ("nifly::NifFile::Clear", "nifly::NifFile::Load", "nifly::NifFile::CopyFrom"):
         for fn in F.fn_named(qn):
+            fn = F.inl(fn)
             lo = pairing.length_ops(fn, NIF, {"blocks"})
+            # private helpers that could not be expanded (they return an error code from several places) still belong to it
+            seen_h, work_h = set(), [fn]
+            while work_h:
+                cur = work_h.pop()
+                for x in walk(cur.get("body") or {}):
+                    if x["k"] == "Call" and x.get("fid") in F.fns and x["fid"] not in seen_h:
+                        g_ = F.fns[x["fid"]]
+                        if g_.get("cls") == NIF and g_.get("access") in ("private", "protected") and g_.get("body"):
+                            seen_h.add(x["fid"])
+                            g_ = F.inl(g_)
+                            lo = lo + pairing.length_ops(g_, NIF, {"blocks"})
+                            work_h.append(g_)
             if qn.endswith("Clear"):
                 ok = any(k == "=0" for n, m, k, a in lo) and any(x["k"] == "Call" and x.get("fn") == "nifly::NiHeader::Clear" for x in walk(fn["body"]))
                 what = "clears the vector and the header together"
@@ -112,7 +128,8 @@ def run(F, chk):
     # ---------------------------------------------------------------- R6.2
     dels = [f for f in F.fn_named("nifly::NiHeader::DeleteBlock") if "unsigned int" in f["id"]]
     chk.require(len(dels) == 1, "NiHeader::DeleteBlock(uint32_t) not found")
-    for fn in dels:
+    for fn in [F.inl(f) for f in dels]:
+        pairing.set_fn(fn)
         class N(flow.Flow):
             def on_node(self, n, st):
                 if st is None:
@@ -124,7 +141,7 @@ def run(F, chk):
             def on_stmt(self, s, st):
                 if st is None:
                     return st
-                over_all = (s["k"] == "RangeFor" and "blocks" in show(s["range"])) or \
+                over_all = (s["k"] == "RangeFor" and ("blocks" in show(s["range"]) or pairing.member_root(s["range"], HDR)[0] == "blocks")) or \
                            (s["k"] == "For" and is_node(s.get("cond")) and ("numBlocks" in show(s["cond"]) or "blocks" in show(s["cond"])))
                 if over_all and any(x["k"] == "Call" and x.get("fn") == "nifly::NiHeader::BlockDeleted" for x in walk(s["body"])):
                     return frozenset(f for f in st if f != ("O", "erased"))
@@ -159,7 +176,55 @@ def run(F, chk):
                 chk.instance(R3, ok=ok, sample={"consumer": qn, "enumerator": m})
                 if not ok:
                     chk.violation("R6.3", "C06/R6.3:%s:%s" % (qn, m), where(fn), "%s does not consult %s" % (qn, m))
-    chk.floor(R3, 4)
+    # BlockDeleted applies both cases of the fix-up to what *each* enumerator reports: a reference to the deleted block is
+    # emptied, a reference beyond it is shifted (decided on effect summaries, so helper lambdas / functions are composed in)
+    import paths as _paths
+    bd = F.fn1("nifly::NiHeader::BlockDeleted")
+
+    def _bd_prim(n, env, fn, st):
+        if n["k"] == "Unary" and n["op"] == "--" or (n["k"] == "Assign" and n["op"] == "-="):
+            t_ = n["e"] if n["k"] == "Unary" else n["l"]
+            pth = env.path(t_)
+            if pth is not None and pth[-1] == "index":
+                return [_paths.Event(pth[:-1], "shift", {})]
+            return None
+        if n["k"] == "Call" and n.get("short") == "Clear" and n.get("cls") in ("nifly::NiRef", "nifly::NiPtr") and is_node(n.get("recv")):
+            pth = env.path(n["recv"])
+            if pth is not None:
+                return [_paths.Event(pth, "empty", {})]
+            return []
+        if n["k"] == "Assign" and n["op"] == "=":
+            pth = env.path(n["l"])
+            if pth is not None and pth[-1] == "index" and ("NPOS" in show(n["r"]) or show(n["r"]) in ("-1", "4294967295")):
+                return [_paths.Event(pth[:-1], "empty", {})]
+            return None
+        if n["k"] == "Call" and n.get("ext"):
+            return []
+        return None
+
+    Sbd = _paths.Summarizer(F, _bd_prim, node_kinds=("Call", "OpCall", "Construct", "Assign", "Unary"))
+    evs_bd = Sbd.events(bd["id"])
+    for m in ("GetChildRefs", "GetPtrs"):
+        calls = [x for x in walk(bd["body"]) if x["k"] == "Call" and x.get("short") == m and x.get("virt") and x.get("args")]
+        kinds = set()
+        for c_ in calls:
+            a0 = c_["args"][0]
+            while is_node(a0) and a0["k"] in ("Cast", "Unary"):
+                a0 = a0["e"]
+            if is_node(a0) and a0["k"] == "Ref":
+                for e_ in evs_bd:
+                    if e_.path and e_.path[0][0] == "$v" and e_.path[0][1] == a0["id"] and e_.path[1:] == ("[*]",):
+                        kinds.add(e_.kind)
+        ok = {"shift", "empty"} <= kinds
+        chk.instance(R3, ok=ok, sample={"consumer": "BlockDeleted", "enumerator": m, "applies": sorted(kinds)})
+        if not ok:
+            missing = sorted({"shift", "empty"} - kinds)
+            chk.violation("R6.3", "C06/R6.3:BlockDeleted:%s:%s" % (m, "+".join(missing)), where(bd),
+                          "BlockDeleted does not %s the references reported by %s: after a deletion such a reference %s" % (
+                              " / ".join({"shift": "shift", "empty": "empty"}[k_] for k_ in missing), m,
+                              "still holds the number of the deleted block and now designates its successor" if "empty" in missing
+                              else "keeps pointing one block too far"))
+    chk.floor(R3, 6)
 
     # ---------------------------------------------------------------- R6.4
     for qn in ("nifly::NiHeader::AddBlock", "nifly::NiHeader::ReplaceBlock"):
